@@ -216,6 +216,7 @@ def run_one(sh, case, driver='generated'):
     sh.note('progress=%s' % case['progress'])
     sh.note('kwargs=%s' % ('list' if isinstance(kw, list) else type(kw).__name__))
     sh.note('api=' + api)
+    sh.note('dtype=' + np.asarray(case['sigs']).dtype.name)
     nt = res is not None and n >= 2 and len(events) > 0
     sample = {k: case[k] for k in ('fs', 'f_range', 'n_jobs', 'progress', 'return_samples', 'delays')}
     sample['sigs'] = 'array%s' % (list(sigs.shape),)
@@ -227,6 +228,8 @@ def make_case(rng, n, order=None, n_jobs=None, api='func'):
     fs, lo, hi = gen.gen_config(rng, small=True)
     nsamp = int(fs * rng.uniform(1.5, 3.0))
     sigs = gen_rows(rng, n, nsamp, fs, lo, hi)
+    if rng.random() < 0.2:
+        sigs = sigs.astype(np.float32)          # single-precision recordings: each row is analysed as it is, alone or in the group
     r = rng.random()
     if api == 'obj' or r < 0.3:
         kw = gen_row_opts(rng, lo)
